@@ -30,6 +30,9 @@ pub struct RtCase {
     pub cuts: Vec<u16>,
     /// the stream ends after this fraction of the last frame (None = clean end)
     pub eof_inside: Option<u16>,
+    /// capacity of the pipe the writer side writes into (a full pipe accepts writes only in part)
+    #[serde(default)]
+    pub pipe_cap: u32,
 }
 
 /// In-memory stream: reads deliver exactly the chosen segments, then EOF; writes are collected.
@@ -94,12 +97,14 @@ fn strategy(tier: Tier) -> BoxedStrategy<RtCase> {
         0u8..4,
         proptest::collection::vec(any::<u16>(), 0..12),
         prop_oneof![3 => Just(None), 1 => any::<u16>().prop_map(Some)],
+        prop_oneof![2 => 16u32..512, 2 => 512u32..9000, 1 => Just(1u32 << 22)],
     )
-        .prop_map(|(frames, seg_mode, cuts, eof_inside)| RtCase {
+        .prop_map(|(frames, seg_mode, cuts, eof_inside, pipe_cap)| RtCase {
             frames,
             seg_mode,
             cuts,
             eof_inside,
+            pipe_cap,
         })
         .boxed()
 }
@@ -287,15 +292,26 @@ fn exec(c: &RtCase, _env: &Env) -> Outcome {
     // possible without access to the stream, so compare through a duplex pair instead
     let wr = catch(|| {
         rt.block_on(async {
-            let (a, mut b) = tokio::io::duplex(1 << 22);
-            let mut conn = Connection::new(a);
-            for f in &frames_real {
-                conn.write_frame(f).await.map_err(|e| e.to_string())?;
-            }
-            drop(conn);
-            let mut v = Vec::new();
-            tokio::io::AsyncReadExt::read_to_end(&mut b, &mut v).await.map_err(|e| e.to_string())?;
-            Ok::<_, String>(v)
+            // a bounded pipe: when it is full a write is accepted only in part, as on a socket
+            // under back-pressure; writer and reader run concurrently
+            let cap = if c.pipe_cap == 0 { 1 << 22 } else { c.pipe_cap as usize };
+            let (a, mut b) = tokio::io::duplex(cap);
+            let writer = async {
+                let mut conn = Connection::new(a);
+                for f in &frames_real {
+                    conn.write_frame(f).await.map_err(|e| e.to_string())?;
+                }
+                drop(conn);
+                Ok::<_, String>(())
+            };
+            let reader = async {
+                let mut v = Vec::new();
+                tokio::io::AsyncReadExt::read_to_end(&mut b, &mut v).await.map_err(|e| e.to_string())?;
+                Ok::<_, String>(v)
+            };
+            let (w, r) = tokio::join!(writer, reader);
+            w?;
+            r
         })
     });
     match wr {
@@ -389,7 +405,7 @@ pub fn prop() -> Prop<RtCase> {
     Prop {
         id: "C08",
         level: "exploration",
-        rule: "Cases: 1-6 frames the connection can write (simple strings/errors of arbitrary UTF-8 without CR/LF, i64 uniform plus MIN/MAX/0/-1/powers of ten, bulk strings of arbitrary bytes 0-20 KiB quick / 200 KiB thorough with CRLF at start/end/inside, null, flat arrays of those), a segmentation of the concatenated encoding (all at once / one byte at a time / generated cut points / cuts at and adjacent to every CRLF) and optionally a stream end strictly inside the last frame. Connection runs over an in-memory AsyncRead/AsyncWrite stream that delivers exactly those segments. Oracles: write_frame's bytes equal a reference encoder's (differential); read_frame yields exactly the frame sequence and then Ok(None); a stream that ends inside a frame yields an error, not Ok(None) nor a frame; EVERY strict prefix of each frame's encoding (all up to 4 KiB, boundary-dense sample beyond) makes Frame::check answer Incomplete. Non-trivial: at least 2 frames and at least one segment boundary strictly inside a frame; distinct = distinct hash of the case.",
+        rule: "Cases: 1-6 frames the connection can write (simple strings/errors of arbitrary UTF-8 without CR/LF, i64 uniform plus MIN/MAX/0/-1/powers of ten, bulk strings of arbitrary bytes 0-20 KiB quick / 200 KiB thorough with CRLF at start/end/inside, null, flat arrays of those), a segmentation of the concatenated encoding (all at once / one byte at a time / generated cut points / cuts at and adjacent to every CRLF) and optionally a stream end strictly inside the last frame. Connection runs over an in-memory AsyncRead/AsyncWrite stream that delivers exactly those segments. Oracles: write_frame's bytes, written into a bounded pipe of generated capacity (16 B - 9 KB, so that writes are accepted only in part, or unbounded) while a reader drains it, equal a reference encoder's (differential); read_frame yields exactly the frame sequence and then Ok(None); a stream that ends inside a frame yields an error, not Ok(None) nor a frame; EVERY strict prefix of each frame's encoding (all up to 4 KiB, boundary-dense sample beyond) makes Frame::check answer Incomplete. Non-trivial: at least 2 frames and at least one segment boundary strictly inside a frame; distinct = distinct hash of the case.",
         assumptions: &["nested arrays are excluded: Connection::write_frame is unimplemented!() for them (not a frame the connection can write)"],
         needs_shim: false,
         budget: |t| t.pick(160000, 1500000),
